@@ -21,6 +21,7 @@ package roaring
 //@   requires pitRI(r)
 //@   ensures pitRI(r)
 //@   ensures err == nil ==> 8 <= r.baseRoaringIterator.currentDataOffset && r.baseRoaringIterator.currentDataOffset < len(r.baseRoaringIterator.data)
+//@   ensures err == nil ==> n == r.baseRoaringIterator.headers[r.baseRoaringIterator.currentIdx * 12 + 10] + 256 * r.baseRoaringIterator.headers[r.baseRoaringIterator.currentIdx * 12 + 11] + 1
 //@   ensures err == nil && cType == 1 ==> r.baseRoaringIterator.currentDataOffset + 2 * length <= len(r.baseRoaringIterator.data) && length == n
 //@   ensures err == nil && cType == 2 ==> r.baseRoaringIterator.currentDataOffset + 8192 <= len(r.baseRoaringIterator.data) && length == 1024
 //@   ensures err == nil && cType == 3 ==> r.baseRoaringIterator.currentDataOffset + 4 * length <= len(r.baseRoaringIterator.data)
